@@ -238,6 +238,33 @@ func (w *encWalker) packBits(v ssa.Value) ([]bitField, bool) {
 				inner[i].Shift += int(k)
 			}
 			return inner, true
+		case token.AND:
+			// member & constant: the member is narrowed to the mask before it is placed
+			k, ok := constInt(x.Y)
+			operand := x.X
+			if !ok {
+				k, ok = constInt(x.X)
+				operand = x.Y
+			}
+			if !ok {
+				return nil, false
+			}
+			inner, ok := w.packBits(operand)
+			if !ok {
+				return nil, false
+			}
+			for i := range inner {
+				m := k >> uint(inner[i].Shift)
+				if inner[i].Mask == 0 {
+					inner[i].Mask = m
+				} else {
+					inner[i].Mask &= m
+				}
+				if inner[i].Mask == 0 {
+					inner[i].Mask = -1 // everything masked away
+				}
+			}
+			return inner, true
 		case token.MUL:
 			k, ok := constInt(x.Y)
 			if !ok || k <= 0 || k&(k-1) != 0 {
@@ -259,6 +286,10 @@ func (w *encWalker) packBits(v ssa.Value) ([]bitField, bool) {
 	case *ssa.Convert:
 		// widening conversion of a member
 		return w.packBits(x.X)
+	case *ssa.Call:
+		// a pure helper of the module that computes the word from members of its
+		// argument (e.g. a pack() method): interpret its result expression
+		return w.packBitsOfCall(x)
 	}
 	if p, ok := w.recvFieldPath(v); ok {
 		return []bitField{{Field: p, Shift: 0}}, true
@@ -489,4 +520,48 @@ func releaseConds(c *Ctx, f *ssa.Function) []string {
 	}
 	sort.Strings(out)
 	return out
+}
+
+// packBitsOfCall interprets a call of a module function whose body is one
+// straight-line expression over members of its first argument.  The members are
+// renamed to paths of the caller's receiver.
+func (w *encWalker) packBitsOfCall(call *ssa.Call) ([]bitField, bool) {
+	sc := call.Call.StaticCallee()
+	if sc == nil || !w.c.inModule(sc) || len(sc.Blocks) != 1 || len(sc.Params) == 0 || len(call.Call.Args) == 0 {
+		return nil, false
+	}
+	prefix, ok := w.recvFieldPath(call.Call.Args[0])
+	if !ok {
+		return nil, false
+	}
+	var ret *ssa.Return
+	for _, ins := range sc.Blocks[0].Instrs {
+		switch x := ins.(type) {
+		case *ssa.Alloc, *ssa.FieldAddr, *ssa.Field, *ssa.UnOp, *ssa.BinOp, *ssa.Convert, *ssa.ChangeType, *ssa.DebugRef:
+		case *ssa.Store:
+			if _, isParam := x.Val.(*ssa.Parameter); !isParam {
+				return nil, false
+			}
+		case *ssa.Return:
+			ret = x
+		default:
+			return nil, false // calls, branches, ...: not a pure expression helper
+		}
+	}
+	if ret == nil || len(ret.Results) != 1 {
+		return nil, false
+	}
+	var recv ssa.Value = sc.Params[0]
+	if a := paramAlloc(sc.Params[0]); a != nil {
+		recv = a
+	}
+	sub := &encWalker{c: w.c, f: sc, recv: recv, assign: w.assign, conds: w.conds}
+	bits, ok := sub.packBits(ret.Results[0])
+	if !ok {
+		return nil, false
+	}
+	for i := range bits {
+		bits[i].Field = prefix + "." + bits[i].Field
+	}
+	return bits, true
 }
